@@ -16,6 +16,11 @@ class DecompressError(Exception):
     """
 
 
+class ContentLengthError(Exception):
+    """Raised when the content-length header is not a non-negative integer.
+    """
+
+
 def mk_chunks(body, chunk_size=512):
     """
     convert plain body bytes to chunked bytes
@@ -55,20 +60,24 @@ class HTTPReader:
         body = []
         while True:
             chunk_header = cls._read_until(stream, CR_LF)
-            chunk_headers = chunk_header.split(b';')  # length + optional chunk-extensions (name=value pairs)
-            chunk_len, _ = chunk_headers[0], chunk_headers[1:]  # we do nothing with chunk-extensions...
-            if chunk_len is None:
+            if chunk_header is None:
                 raise DechunkError(
                     'Could not extract chunk size: unexpected end of data.')
+            chunk_headers = chunk_header.split(b';')  # length + optional chunk-extensions (name=value pairs)
+            chunk_len, _ = chunk_headers[0], chunk_headers[1:]  # we do nothing with chunk-extensions...
 
             try:
                 chunk_len = int(chunk_len.strip(), 16)
             except (ValueError, TypeError) as err:
                 raise DechunkError('Could not parse chunk size:') from err
+            if chunk_len < 0:
+                raise DechunkError('Negative chunk size.')
 
             bytes_to_read = chunk_len
             while bytes_to_read:
                 chunk = stream.read(bytes_to_read)
+                if not chunk:
+                    raise DechunkError('Unexpected end of data inside a chunk.')
                 bytes_to_read -= len(chunk)
                 body.append(chunk)
 
@@ -118,9 +127,11 @@ class HTTPReader:
             if cl_string:
                 try:
                     content_length = int(cl_string)
-                    http_body = http_message.rfile.read(content_length)
-                except TypeError:
-                    http_body = http_message.rfile.read()
+                except (TypeError, ValueError) as err:
+                    raise ContentLengthError(f'invalid content-length "{cl_string}"') from err
+                if content_length < 0:
+                    raise ContentLengthError(f'invalid content-length "{cl_string}"')
+                http_body = http_message.rfile.read(content_length)
 
         # if we get compressed content then we check against server setting
         # if it matches continue and decompress
@@ -129,7 +140,10 @@ class HTTPReader:
         if actual_enc:
             supported_encs = supported_encodings or CompressionHandler.available_encodings
             if actual_enc in supported_encs:
-                http_body = CompressionHandler.decompress_payload(actual_enc, http_body)
+                try:
+                    http_body = CompressionHandler.decompress_payload(actual_enc, http_body)
+                except Exception as err:
+                    raise DecompressError(f'could not decompress "{actual_enc}" content: {err}') from err
             else:
                 raise DecompressError(f'content-encoding "{actual_enc}" is not supported', )
         return http_body
